@@ -142,6 +142,25 @@ pub fn char_context_space(r: &mut Run, name: &str, mask: u32, algs: Vec<Alg>) ->
     })
 }
 
+/// Wrap-level oracles on the escape grammar's byte ranges: for every byte b in 0x20..=0x7F the
+/// texts "ESC [ 1 b X12 345" (b in '@'..='~' ends the CSI, otherwise X does) and
+/// "ESC ] 8 b X BEL 12 345".  Text alphabets only carry sequences ending in 'm'.
+pub fn escape_scan_space(r: &mut Run, name: &str, mask: u32, algs: Vec<Alg>) -> Result<(), MachineryError> {
+    let g = Gamma { seps: seps(), algs, spls: vec![Spl::None, Spl::Hyphen], bws: vec![true, false], indents: vec![("", ""), (">", "")], crlf: vec![false] };
+    let bases = g.bases();
+    r.range(name, &format!("for every byte b in 0x20..=0x7F the texts \"ESC[1bX12 345\" and \"ESC]8bX BEL 12 345\" (well-formed by the grammar of C10 whatever b is); {}; widths 0..=8, MAX", g.describe()), 96 * 2, move |i, cx| {
+        let b = (0x20 + (i % 96)) as u8 as char;
+        let text = if i / 96 == 0 { format!("\x1b[1{b}X12 345") } else { format!("\x1b]8{b}X\x0712 345") };
+        cx.seq = idx_seq(i);
+        cx.set_input(&text);
+        for base in &bases {
+            for w in (0..=8).chain([usize::MAX]) {
+                check_wrap(&text, &Cfg { width: w, ..*base }, mask, cx);
+            }
+        }
+    })
+}
+
 mod c01;
 mod c02;
 #[cfg(feature = "full")]
